@@ -119,6 +119,10 @@ def concrete(family, kind):
           ("negative_gas_reading", lambda: negative(base()), False, std)]
     po = [("weather_independent_noise", lambda: poor(base()), True, std),
           ("threshold_1e-6", lambda: base(), True, thr)]
+    if H:
+        # the alternative fit path of the hourly model (adaptive daily weights), poor fit by threshold
+        po.append(("adaptive_weights_threshold_1e-6", lambda: base(), True,
+                   dict(thr, elasticnet={"adaptive_weights": True, "adaptive_weight_max_iter": 3, "adaptive_weight_tol": 1e-4})))
     dp = [("too_short_and_threshold", lambda: base(days=300), True, thr),
           ("gaps_and_noise", lambda: gaps(poor(base())), True, std)]
     return {"ok": ok, "dq": dq, "poor": po, "dq_poor": dp}[kind]
@@ -148,12 +152,16 @@ def predict_input(family, dtype, tz):
     zone = {"same": ZONE, "other": OTHER_ZONE, "other_same_offset": SAME_OFFSET_ZONE}[tz]
     if dtype == "frame":
         return ds.daily_frame(start="2022-02-01", days=40, tz=zone, wseed=3, seed=3)
-    if dtype == "foreign":
-        if family == "hourly":
-            return em.DailyReportingData(ds.daily_frame(start="2022-02-01", days=40, tz=zone, wseed=3, seed=3), is_electricity_data=True)
-        if family == "daily":
+    if dtype in ("foreign", "foreign2"):
+        # the reporting data classes of the two OTHER families (daily <-> billing is the pair where prediction could mechanically work)
+        others = {"daily": ["billing", "hourly"], "billing": ["daily", "hourly"], "hourly": ["daily", "billing"]}[family]
+        other = others[0 if dtype == "foreign" else 1]
+        if other == "hourly":
             return em.HourlyReportingData(ds.hourly_frame(start="2022-02-01", days=40, tz=zone, wseed=3, seed=3), is_electricity_data=True)
-        return em.DailyReportingData(ds.daily_frame(start="2022-02-01", days=40, tz=zone, wseed=3, seed=3), is_electricity_data=True)
+        fr = ds.daily_frame(start="2022-02-01", days=95, tz=zone, wseed=3, seed=3)
+        if other == "daily":
+            return em.DailyReportingData(fr, is_electricity_data=True)
+        return em.BillingReportingData.from_series(ds.billing_reads(fr["observed"]), fr["temperature"], is_electricity_data=True)
     if family == "hourly":
         fr = ds.hourly_frame(start="2022-02-01", days=40 if dtype == "own_reporting" else 365, tz=zone, wseed=3, seed=3)
         return (em.HourlyReportingData if dtype == "own_reporting" else em.HourlyBaselineData)(fr, is_electricity_data=True)
